@@ -6,7 +6,7 @@
 import Optyx.Generated.PinsC01
 
 namespace Optyx.Props.PinsC01
-open Optyx.Generated
+open Optyx.Generated.PinsC01
 
 /-- `compile_expression` (core/compiler.py) -/
 theorem pin_compiler_compile_expression_anchor : pin_compiler_compile_expression = "db0179ead8cd3aa4" := rfl
